@@ -34,7 +34,6 @@ Every reachable P1 state is the P1 component of a reachable wrapper state (`rrun
 quantification of C02_recover_prefix.
 -/
 import Pdb.Proofs.RecoverInv
-import Pdb.Proofs.RecoverWal
 import Pdb.Props.C03
 import Pdb.Props.C13
 
@@ -196,27 +195,6 @@ example : let w := rrun cexKind RSt.init cexActsB
 
 end Counterexamples
 
-/-! ### (iii) the id logic is the WAL replay of C13 -/
-
-open Wal in
-/-- For any list of non-empty record lists (ids arbitrary), every record well formed in `cfg`
-    and leaving `cfg` unchanged: the records `Wal.replayOpen` applies to the ENCODED files are
-    exactly `realAccepted` of the abstract files, the start id is `startId` of the same replay
-    queue, and the tables are the fold of the accepted records' actions.  (Uses
-    `C13_parse_encode`; what remains unproved - torn tails, configuration-changing records,
-    the map from logical to physical records - is listed in Proofs/RecoverWal.lean.) -/
-theorem C02_real_is_wal_replay (crc : Wal.Bytes → Nat) (cfg : Wal.Cfg) (files : List (List Wal.Record))
-    (hne : ∀ f ∈ files, f ≠ []) (hwf : ∀ f ∈ files, ∀ r ∈ f, Wal.StableWF cfg r) :
-    (Wal.replayOpen crc cfg (files.map (Wal.encodeRecords crc))).applied =
-      realAccepted (files.map Wal.toLFile) ∧
-    Wal.initialLastEnacted (files.map (Wal.encodeRecords crc)) =
-      startId (replayOrder LFile.firstId (files.map Wal.toLFile)) ∧
-    ∀ (σ : Type) (step : σ → Wal.Action → σ) (T : σ),
-      (Wal.replaySortedWith step crc
-        ⟨cfg, Wal.initialLastEnacted (files.map (Wal.encodeRecords crc)), T⟩
-        (Wal.orderFiles (files.map (Wal.encodeRecords crc)))).1.tables =
-      ((realAccepted (files.map Wal.toLFile)).flatMap (·.actions)).foldl step T :=
-  Wal.replayOpen_eq_realAccepted crc cfg files hne hwf
 
 end Pdb
 
@@ -268,16 +246,6 @@ example : ((rrun cexKind RSt.init (cexActsA ++ [.cleanSome 1])).files.map
     (rrun cexKind RSt.init (cexActsA ++ [.cleanSome 1])).pool = [0] := by decide
 
 -- (iii): records of C13's examples; files given youngest first, and with a gap
-open Wal in
-example : StableWF exCfg exR1 ∧ StableWF exCfg exR2 ∧ StableWF exCfg exR3 := by
-  refine ⟨⟨by decide +kernel, by decide +kernel⟩, ⟨by decide +kernel, by decide +kernel⟩,
-    ⟨by decide +kernel, by decide +kernel⟩⟩
-open Wal in
-example : realAccepted ([[exR3], [exR1, exR2]].map toLFile) = [exR1, exR2, exR3] ∧
-    realAccepted ([[exR3], [exR1]].map toLFile) = [exR1] ∧
-    (replayOpen crcSum exCfg ([[exR3], [exR1, exR2]].map (encodeRecords crcSum))).applied =
-      [exR1, exR2, exR3] := by
-  refine ⟨by decide +kernel, by decide +kernel, by decide +kernel⟩
 end Example
 
 end Pdb
@@ -289,6 +257,5 @@ end Pdb
 #print axioms Pdb.C02_real_recovery_restart
 #print axioms Pdb.C02_real_needs_oldest_first
 #print axioms Pdb.C02_real_needs_first_id_order
-#print axioms Pdb.C02_real_is_wal_replay
 #print axioms Pdb.rrun_st
 #print axioms Pdb.RInv.realRecover_eq
